@@ -11,6 +11,7 @@ point of an object outside its container, a separating axis with a positive gap)
   inside(tris, P)         ray-parity point-in-mesh, three fixed irrational directions, unanimous
   overlap_witness(A, B)   point strictly inside both solids (margin), or None
   container_ref(spec)     membership predicate of a container written by the generator
+  seg_hits / shadowed     segment-vs-oriented-box slab test; proof that a body is completely hidden behind a box
 """
 
 import math
@@ -116,6 +117,8 @@ def container_ref(spec):
     """Membership predicate (regionref signed distance) of a container description from the generator.
     2D regions constrain the footprint only (docs: glossary 'footprint', reference/region_types)."""
     k = spec["kind"]
+    if k == "diff":  # mesh volume minus the (infinitely tall) footprint of a 2D region
+        return rr.Comp("difference", container_ref(spec["A"]), container_ref(spec["B"]))
     if k == "box":
         return rr.BoxRef(spec["dims"], spec["pos"], (spec["yaw"], 0.0, 0.0))
     if k == "rect":
@@ -126,7 +129,28 @@ def container_ref(spec):
     return ref
 
 
+def seg_hits(p, Q, B, shrink):
+    """Per point q of Q: does the segment p->q meet B's oriented box shrunk by `shrink` (grown if negative)?  Slab test in B's frame."""
+    h = B.h - shrink
+    a, D = B.local(np.asarray(p, float)[None])[0], B.local(np.asarray(Q, float)) - B.local(np.asarray(p, float)[None])[0]
+    with np.errstate(divide="ignore", invalid="ignore"):
+        t1, t2 = (-h - a) / D, (h - a) / D
+    par, ins = D == 0, np.abs(a) <= h
+    lo = np.where(par, np.where(ins, -np.inf, np.inf), np.minimum(t1, t2))
+    hi = np.where(par, np.where(ins, np.inf, -np.inf), np.maximum(t1, t2))
+    return (h > 0).all() & (np.maximum(lo.max(axis=1), 0) <= np.minimum(hi.min(axis=1), 1))
+
+
+def shadowed(cam, T, W, margin):
+    """Proof that T is completely hidden from cam by the box W: cam is outside W and the segments to all 8 corners of T's bounding
+    box pass through W shrunk by the margin (the set of points behind a convex body is convex, so every point of T is behind W)."""
+    corners = T.c + (GRID[(GRID != 0).all(axis=1)] * T.h) @ T.R.T
+    return bool((np.abs(W.local(np.asarray(cam, float)[None])[0]) > W.h + margin).any() and seg_hits(cam, corners, W, margin).all())
+
+
 def convex(spec):
+    if spec["kind"] == "diff":
+        return False
     if spec["kind"] != "poly":
         return True
     p = np.array(spec["points"], float)
